@@ -9,7 +9,9 @@ EXPLANATION = (
     "narrowing cast before the mask; R2 the overflow handler selects wrap by config and passes the rounded value with the "
     "destination's own (signed, n_word), dispatch exhaustive over Config's overflow list; the product kernel leaves int64 before its exact result needs more than 64 bits (C19.R1 on mul); R3 the Python-int path is taken for "
     "n_word >= the storage threshold and converts elements with int() before masking; plus the store pipeline (wrap is applied after "
-    "rounding, nothing after it). Residual: bit-level behaviour of NumPy &, |, <, where on int64/object arrays (lemmas).")
+    "rounding, nothing after it). Residual: bit-level behaviour of NumPy &, |, <, where on int64/object arrays (lemmas)."
+    ' Added after the third round of seeded changes: explicit overflow= keywords reach the final configuration (C20.R2 order rule), the numpy protocol hands calls to the registered function unchanged (C15.R5), and the n_int/n_word relation of _init_size holds for n_int == 0 (C06.R1).'
+)
 ASSUMPTIONS = ["for Python ints and non-overflowing int64: x & (2^n-1) == x mod 2^n; (0<=x<2^n and x>=2^(n-1)) => x | -2^n == x - 2^n"]
 TRUSTED = ["CPython ast", "fxlint term normaliser", "lemma: NumPy elementwise bit operations"]
 
